@@ -83,7 +83,9 @@ def row_harmonic(rnd, hmc=False, single_composite=False, large_dt=False):
         period_fs = 2 * math.pi * math.sqrt(m / k) * ASE_TIME_FS
         # from nearly always accepted (period/30) to a substantial rejection rate (period/4: omega*dt = 1.57, about 60%
         # accepted): what a rejected trajectory leaves behind only matters in the latter regime (seeded C01-4)
-        sc["moves"] = [{"name": "hmc", "move": {"type": "hmc", "dt": round(period_fs / rnd.choice([4, 5, 6] if large_dt else [4, 5, 6, 8, 12, 30]), 5),
+        # (the divisor is kept off the integers: a trajectory of exactly k half periods returns the lightest particle to
+        #  +- its starting point, a non-ergodic proposal that says nothing about the package)
+        sc["moves"] = [{"name": "hmc", "move": {"type": "hmc", "dt": round(period_fs / (rnd.choice([4, 5, 6] if large_dt else [4, 5, 6, 8, 12, 30]) + 0.37), 5),
                                                 "nsteps": rnd.randint(3, 10)}}]
         sc["params"]["max_cycles"] = 1
     elif prop in ("Ball", "Box", "Sphere", "Translation"):
@@ -235,6 +237,14 @@ def run_chain(sc: dict, seed: int, nsteps: int) -> dict:
     c = copy.deepcopy(sc)
     c["seed"] = seed
     c["steps"] = [{"n": nsteps}]
+    if sc["row"].startswith("harmonic"):
+        # every chain starts from its OWN draw of the exact equilibrium distribution (harness-side generator): whatever
+        # a proposal cannot reach (a Hamiltonian trajectory of exactly one period returns a particle to where it was; a
+        # chain that accepts nothing stays put) is then still unbiased across the chains, and chain means are i.i.d.
+        g = random.Random(derive(seed, "initial_configuration"))
+        pk = sc["calc"]["pot"]
+        sig = math.sqrt(sc["params"]["temperature"] * kB / pk["k"])
+        c["atoms"]["positions"] = [[pk["center"][j] + g.gauss(0.0, sig) for j in range(3)] for _ in sc["atoms"]["numbers"]]
     warm = sc.get("warmup")
     if warm:
         # the simulation object is built and run at another temperature first, then retuned through the documented
